@@ -144,6 +144,28 @@ def gen_restart_empty(rng, length, **_):
     return ops
 
 
+def gen_restart_order(rng, length, **_):
+    """Directed profile: several jobs of one priority in one channel, one of them killed and its
+    id used again (the newest job now sits at an OLD position of the id table), then a restart,
+    then the workers pull one by one: the order after the restart is still priority, then age."""
+    ch = rng.choice(CHANNELS)
+    p = rng.choice([0, 1])
+    ids = JOBIDS[:rng.choice([2, 3, 4])]
+    A = lambda i: {"op": "add", "id": i, "ch": ch, "prio": p, "tmo": 100, "ttl": 100}
+    ops = [A(i) for i in ids]
+    for i in rng.sample(ids, rng.choice([1, 2])):
+        ops += [{"op": "kill", "k": "admin", "id": i}, A(i)]
+    ops.append({"op": "restart"})
+    for w in WORKERS:
+        ops += [{"op": "pull", "w": w, "chs": rng.choice([[], [ch]])}, {"op": "runloop"}]
+    tail = [lambda: A(rng.choice(ids)), lambda: {"op": "restart"},
+            lambda: {"op": "finish", "w": rng.choice(WORKERS), "id": rng.choice(ids), "err": "none"},
+            lambda: {"op": "pull", "w": rng.choice(WORKERS), "chs": []}, lambda: {"op": "runloop"}]
+    while len(ops) < length:
+        ops.append(rng.choice(tail)())
+    return ops
+
+
 def gen_sequence(rng, length, *, restart=False, wait=False, extras=False, reconnect=True):
     r0 = rng.random()
     if r0 < 0.3:
@@ -152,6 +174,8 @@ def gen_sequence(rng, length, *, restart=False, wait=False, extras=False, reconn
         return gen_id_reuse(rng, length, restart=restart)
     if r0 < 0.46 and wait and restart:
         return gen_restart_empty(rng, length)
+    if r0 < 0.52 and restart:
+        return gen_restart_order(rng, length)
     """A legal operation sequence (legality judged on a light shadow of connection states; the
     shadow never decides a verdict - an illegal op would merely be rejected as machinery error)."""
     ops = []
